@@ -5,6 +5,7 @@ P = {
     "level_text": "exploration: each generated calibration scenario (type x dims x form x standards x port maps x abbreviated matrices x vector standards) is solved by libvna and the corrected S of a random device is compared with the device fed into the independent physical model, to a conditioning-scaled rounding bound.",
     "design_ref": "DESIGN.md section 3 C01",
     "sources": ["harness/props/C01.cpp"],
+    "ldflags": ["-lyaml-cpp"],
     "rule": "random scenarios: type in 8 types, dims 1..4 (rectangular where the type allows), m or a/b, 1..4 frequencies, random error box per frequency from vnamodel (structure allowed by the type), standards = sufficient baseline (3 distant reflects per diagonal port, through/line/mapped 2-port between every diagonal port and every other port, random full P-port standards for 16-term types) + 0..3 extras, shuffled, sufficiency and conditioning confirmed by the model's Jacobian identifiability test (kappa < 1e5); non-trivial = a/b form, rectangular shape, >= 2 frequencies, abbreviated measurement matrix, entry point other than mapped_matrix, permuted port map or vector standard; distinct = distinct choice tapes",
     "assumptions": COMMON_ASSUME + ["vnamodel.hpp (M = El + Er (I - S Em)^-1 S Et with the per-type sparsity and per-column switch terms) spans the error networks each type can represent", "tolerance CTOL*eps*kappa_J*10 with CTOL = 1e4 (calibrated: largest observed ratio < 1)"],
     "tiers": tiers(
